@@ -109,6 +109,16 @@ def base_cases(r, tier):
     pre15 = [{"p": "dst", "k": "d"}, {"p": "dst/src", "k": "d"}, F("dst/src/NAME", 70, 610), F("dst/src/other", 80, 611), F("dst/src/other.~1~", 9, 612)]
     out.append({"name": "backup-named-siblings", "spec": spec15, "pre": pre15, "bs": "4096", "expect_fail": False, "opts": ["--backup", "numbered"], "per": 30 if tier == "quick" else 150})
     out.append({"name": "backup-named-siblings-auto", "spec": copy.deepcopy(spec15), "pre": copy.deepcopy(pre15), "bs": "4096", "expect_fail": False, "opts": ["--backup", "auto"], "per": 30 if tier == "quick" else 150})
+    # ... the pair alone, the file having no backup yet (in auto mode whether one is due is itself something a sibling can change),
+    # in both walk orders (`A` sorts before `NAME`, `z` after)
+    for tag, extra in (("", "zz"), ("-reversed", "A")):
+        sp = [{"p": "src", "k": "d"}] + [F("src/" + n, 5000 + 11 * i, 620 + i, mode=0o644) for i, n in enumerate(["NAME", "NAME.~1~", extra])]
+        if tag:
+            sp = [{"p": "src", "k": "d"}, {"p": "src/NAME.~1~", "k": "f", "size": 7000, "seed": 631, "segs": None, "mode": 0o644}, F("src/NAME", 5000, 632, mode=0o644), F("src/A", 10, 633, mode=0o644)]
+        pr = [{"p": "dst", "k": "d"}, {"p": "dst/src", "k": "d"}, F("dst/src/NAME", 70, 640)]
+        for mode in ("auto", "numbered"):
+            out.append({"name": "backup-named-pair-%s%s" % (mode, tag), "spec": copy.deepcopy(sp), "pre": copy.deepcopy(pr), "bs": "4096", "expect_fail": False, "opts": ["--backup", mode],
+                        "per": 24 if tier == "quick" else 120})
     # T15: ... and the same through a link whose target does not exist yet (it is about to be created by this very run), and with
     # backups (where the rename of one name races with the look at the other)
     pre16 = [{"p": "dst", "k": "d"}, {"p": "dst/src", "k": "d"}, {"p": "dst/src/a", "k": "l", "target": "b"}, {"p": "dst/src/c", "k": "l", "target": "./e"}]
